@@ -8,12 +8,11 @@
    remove the temporary, or writes the terminating blank line before the child cards makes the
    corresponding obligation fail to compile.
 
-   Status on the current source:
-     C15_guards, C15_atomic, C15_atomic_any_adversary, C15_success, C15_frame   full
-     "leaves no truncated or partial file" read as "no stray temporary either":
-        C15_no_leftover_refuted (a failing close leaves the partial temporary, for EVERY problem)
-        C15_no_leftover_partial (none as long as close / os.replace / os.remove themselves work)
-     proposed_fixes/C15-1 (try/finally in __exit__) turns the pair into one full theorem. *)
+   Status on the current source (with the try/finally clean-up in MCNP_InputFile.__exit__, /repo 2103e4e,
+   and the right-stripping of every written line, /repo 7b99f67):
+     C15_guards, C15_atomic, C15_atomic_any_adversary, C15_success, C15_no_leftover, C15_frame   all full
+     ("leaves no truncated or partial file" read as "no stray temporary either"; the only crash point
+     that can leave one is a failing os.remove of the temporary itself, which nothing can clean up after). *)
 From Coq Require Import List String Ascii Bool.
 From MPV Require Import Model.Wire Model.Write Proofs.WriteProofs Gen.Writer.
 Import ListNotations.
@@ -49,6 +48,11 @@ Theorem C15_gen_body_blocks_in_order : body_blocks_in_order write_steps = true.
 Proof. vm_compute. reflexivity. Qed.
 Print Assumptions C15_gen_body_blocks_in_order.
 
+(* every line is right-stripped when it is written: the complete file is [spec_render] = spec_render_r true *)
+Theorem C15_gen_lines_rstripped : w_strips write_steps = true.
+Proof. vm_compute. reflexivity. Qed.
+Print Assumptions C15_gen_lines_rstripped.
+
 (* also serves C09: the cards made from the cells are inside the data block *)
 Theorem C15_gen_children_before_terminator : children_before_terminator write_steps = true.
 Proof. vm_compute. reflexivity. Qed.
@@ -62,11 +66,10 @@ Theorem C15_gen_writer_ok : writer_ok write_steps = true.
 Proof. vm_compute. reflexivity. Qed.
 Print Assumptions C15_gen_writer_ok.
 
-(* the current __exit__ is the plain one: its clean-up is skipped when the close or the move raises
-   (this obligation fails to compile once proposed_fixes/C15-1 is applied: see notes/C15.md) *)
-Theorem C15_gen_cleanup_not_total : cleanup_total write_steps = false.
+(* __exit__ is the try/finally one: the temporary is also removed when the close or the move raises *)
+Theorem C15_gen_cleanup_total : cleanup_total write_steps = true.
 Proof. vm_compute. reflexivity. Qed.
-Print Assumptions C15_gen_cleanup_not_total.
+Print Assumptions C15_gen_cleanup_total.
 
 (* ---------------------------------------------------------------- headline theorems *)
 Definition tmp (pid d : string) : path := tmp_of write_steps pid d.
@@ -91,18 +94,19 @@ Print Assumptions C15_guards.
       themselves), every prior state: when write_to_file raises, the destination is exactly as
       before (only a failing warning hand-over, which comes after the move, leaves the complete
       file); no path other than the temporary is touched; the temporary is gone unless it was
-      __exit__ itself (close / replace / remove) that failed *)
+      os.remove of the temporary itself that failed *)
 Theorem C15_atomic : forall f pid d ov p k f' e,
   f (tmp pid d) = Absent ->
   write_with_failure_at k write_steps d (tmp pid d) ov p f = (f', Err e) ->
   (f' d = f d \/ (k = FPost /\ f' d = File (spec_render p))) /\
-  (exit_fault k = false -> f' (tmp pid d) = Absent) /\
+  (k <> FRemove -> f' (tmp pid d) = Absent) /\
   (forall q, q <> d -> q <> tmp pid d -> f' q = f q).
 Proof.
   intros f pid d ov p k f' e Hab H.
   destruct (headline_atomic write_steps C15_gen_writer_ok f pid d ov p k f' e Hab H) as (H1 & H2 & H3).
   repeat split; auto.
-  intros Hk. apply H2. exact (may_leave_plain write_steps k C15_gen_cleanup_not_total Hk).
+  intros Hk. apply H2. apply (may_leave_total write_steps k C15_gen_cleanup_total).
+  destruct k; simpl; auto; congruence.
 Qed.
 Print Assumptions C15_atomic.
 
@@ -125,36 +129,18 @@ Proof. exact (headline_success write_steps C15_gen_writer_ok). Qed.
 Print Assumptions C15_success.
 
 (* 4. "leaves no truncated or partial file" also forbids a stray partial temporary next to the
-      destination.  The current __exit__ does not give that:
-      4a (refuted, in the strongest form): for EVERY problem, every flag and every prior state the
-         guards let through, a failing close (buffered data cannot be flushed — the way a full disk
-         shows up for a small file) makes write_to_file raise OSError with the destination intact
-         and the partial temporary left behind *)
-Theorem C15_no_leftover_refuted : forall f pid d ov p adv,
-  f d <> Dir -> (forall c, f d = File c -> ov = true) -> f (tmp pid d) = Absent ->
-  a_open adv = false -> a_close adv = true ->
-  exists f' W, run_writer write_steps (mkenv d (tmp pid d) ov p adv) f = (f', Err OSError) /\
-               f' d = f d /\ f' (tmp pid d) = File W.
-Proof.
-  intros f pid d ov p adv Hd Hov Ht Hao Hac.
-  apply (close_failure_leaves_temp write_steps (mkenv d (tmp pid d) ov p adv) f
-           C15_gen_writer_ok C15_gen_cleanup_not_total (C15_temp_is_not_dest pid d)); simpl; auto.
-  rewrite Ht. discriminate.
-Qed.
-Print Assumptions C15_no_leftover_refuted.
-
-(*    4b (partial): no stray temporary, whatever the outcome, as long as close / replace / remove
-         themselves work — in particular for every failing format call and every failing write *)
-Theorem C15_no_leftover_partial : forall f pid d ov p adv f' r,
+      destination: whatever the outcome and whatever fails — format calls, writes, the close, the
+      move — the temporary is gone afterwards, as long as os.remove of the temporary itself works *)
+Theorem C15_no_leftover : forall f pid d ov p adv f' r,
   f (tmp pid d) = Absent ->
-  a_close adv = false -> a_replace adv = false -> a_remove adv = false ->
+  a_remove adv = false ->
   run_writer write_steps (mkenv d (tmp pid d) ov p adv) f = (f', r) -> f' (tmp pid d) = Absent.
 Proof.
-  intros f pid d ov p adv f' r Hab Hc Hr Hm H.
-  apply (headline_temp_gone write_steps C15_gen_writer_ok f pid d ov p adv f' r Hab); auto.
-  unfold may_leave_temp. rewrite C15_gen_cleanup_not_total, Hc, Hr, Hm. reflexivity.
+  intros f pid d ov p adv f' r Hab Hm H.
+  apply (headline_temp_gone write_steps C15_gen_writer_ok f pid d ov p adv f' r Hab); [|exact H].
+  unfold may_leave_temp. rewrite C15_gen_cleanup_total. exact Hm.
 Qed.
-Print Assumptions C15_no_leftover_partial.
+Print Assumptions C15_no_leftover.
 
 (* 5. nothing but the destination and the temporary is ever touched (no condition at all) *)
 Theorem C15_frame : forall f pid d ov p adv f' r q,
@@ -168,7 +154,7 @@ Definition ex_problem : problem :=
   mkproblem (fun s => match s with
                       | SMessage => []
                       | STitle => [Some ["title"]]
-                      | SCells => [Some ["1 0 -1"]; Some ["2 0 1"; "     imp:n=1"]]
+                      | SCells => [Some ["1 0 -1 "]; Some ["2 0 1"; "     imp:n=1"]]
                       | SSurfaces => [Some ["1 so 5"]]
                       | SData => [Some ["mode n"]]
                       end) (Some ["imp:n 1 0"]).
@@ -193,6 +179,13 @@ Example C15_atomic_nonvacuous :
 Proof. vm_compute. repeat split; reflexivity. Qed.
 Print Assumptions C15_atomic_nonvacuous.
 
+(* the complete file of the example, spelled out: block structure, trailing blank of "1 0 -1 " gone *)
+Example C15_spec_render_example :
+  spec_render ex_problem =
+  String.concat nl ["title"; "1 0 -1"; "2 0 1"; "     imp:n=1"; ""; "1 so 5"; ""; "mode n"; "imp:n 1 0"; ""; ""; ""].
+Proof. vm_compute. reflexivity. Qed.
+Print Assumptions C15_spec_render_example.
+
 Example C15_success_nonvacuous :
   obs (write_with_failure_at FNone write_steps "out.i" (tmp "42" "out.i") true ex_problem ex_fs)
     = (Ok, File (spec_render ex_problem), Absent, File "keep") /\
@@ -209,12 +202,11 @@ Example C15_guards_nonvacuous :
 Proof. vm_compute. repeat split; reflexivity. Qed.
 Print Assumptions C15_guards_nonvacuous.
 
-(* C15_no_leftover_refuted on a concrete run (the committed finding F-C15-temp-left-when-exit-fails
-   replays this on the real code): overwrite of "OLD" with the close failing *)
-Example C15_no_leftover_refuted_witness :
+(* C15_no_leftover on runs where __exit__ itself fails: the close, the move *)
+Example C15_no_leftover_nonvacuous :
   obs (write_with_failure_at FClose write_steps "out.i" (tmp "42" "out.i") true ex_problem ex_fs)
-    = (Err OSError, File "OLD", File (spec_render ex_problem), File "keep") /\
+    = (Err OSError, File "OLD", Absent, File "keep") /\
   obs (write_with_failure_at FReplace write_steps "out.i" (tmp "42" "out.i") true ex_problem ex_fs)
-    = (Err OSError, File "OLD", File (spec_render ex_problem), File "keep").
+    = (Err OSError, File "OLD", Absent, File "keep").
 Proof. vm_compute. repeat split; reflexivity. Qed.
-Print Assumptions C15_no_leftover_refuted_witness.
+Print Assumptions C15_no_leftover_nonvacuous.
